@@ -182,3 +182,24 @@ pub fn permute_sorted<T, K: Ord>(
     items.sort_by_key(|item| key(item));
     permute(items)
 }
+
+/// The type of a function deciding whether a named fault is injected.
+pub type InjectFn = dyn Fn(&str) -> bool + Send + Sync;
+
+static INJECT: RwLock<Option<Arc<InjectFn>>> = RwLock::new(None);
+
+/// Installs (or removes) the function consulted by [`inject`].
+pub fn set_inject_handler(handler: Option<Arc<InjectFn>>) {
+    *INJECT.write().unwrap() = handler;
+}
+
+/// Returns whether the named fault should be injected now.
+///
+/// Without an installed handler no fault is ever injected.
+pub fn inject(name: &str) -> bool {
+    let handler = INJECT.read().unwrap().clone();
+    match handler {
+        Some(handler) => handler(name),
+        None => false
+    }
+}
